@@ -12,6 +12,12 @@ QT = os.path.join(VERIF, 'qtmodel')
 HERE = os.path.dirname(os.path.abspath(__file__))
 
 
+# members of QXmppOutgoingClientPrivate that the verified functions touch, named as in the repository (a renamed member is a
+# compile error of the generated C = exit 2); streamAckManager() / xmppSocket() / iqManager() are getters of these members
+CLIENT_REC = ('typedef struct QXmppOutgoingClientPrivate { StreamAckManager streamAckManager; XmppSocket socket; OutgoingIqManager iqManager; } QXmppOutgoingClientPrivate;\n'
+              'typedef struct QXmppOutgoingClient { QXmppOutgoingClientPrivate *d; } QXmppOutgoingClient;\n')
+
+
 def rd(name):
     return open(os.path.join(HERE, name)).read()
 
@@ -208,7 +214,7 @@ def build(work, tier):
     recs.append(ctx.emit_record(oc, 'Sasl2::Authenticate', 'Authenticate', 'Sasl2Authenticate', prof, opaque_ok=True)[0])
     recs.append(ctx.emit_record(oc, 'Sasl2::StreamFeature', 'StreamFeature', 'Sasl2StreamFeature', prof, opaque_ok=True)[0])
     # q->streamAckManager() / q->xmppSocket(): getters of the client's one ack manager and socket
-    recs.append('typedef struct QXmppOutgoingClient { StreamAckManager ack; XmppSocket sock; } QXmppOutgoingClient;')
+    recs.append(CLIENT_REC)
     recs.append(ctx.emit_record(oc, 'C2sStreamManager', 'C2sStreamManager', 'C2sStreamManager', prof, opaque_ok=True)[0])
     c2s_texts = []
     C = 'C2sStreamManager_'
@@ -223,12 +229,43 @@ def build(work, tier):
         c2s_texts.append(b.lower(Target(OC, 'C2sStreamManager::' + name, name, C + name, this='C2sStreamManager', lowerer_cls=C09Lowerer), sp))
         c2s_jobs.append((name, C + name, decls, args, sp, repl))
     c2s_body = ('#define MGR self\n' + b.prototype(T[M + 'setAcknowledgedSequenceNumber']) + b.prototype(T[M + 'enableStreamManagement']) + t_lastin + '\n'
-                + '\n'.join(recs) + '\n' + rd('c2s_model.h') + '#undef MGR\n#define MGR (&self->q->ack)\n' + '\n'.join(c2s_texts))
+                + '\n'.join(recs) + '\n' + rd('c2s_model.h') + '#undef MGR\n#define MGR (&self->q->d->streamAckManager)\n' + '\n'.join(c2s_texts))
     for pid, cname, decls, args, sp, repl in c2s_jobs:
         f = b.write(pid + '.c', assemble(c2s_body, 'void h_%s(void) { %s %s(%s); }' % (pid, decls, cname, args)))
         typecheck(f)
         p = Proof(pid, f, 'h_' + pid, enforce=cname, include_dirs=[QT], kind='complete', loop_contracts=False, timeout=600, replace=repl,
                   note=('callees through their contracts: ' + ', '.join(repl)) if repl else '')
+        p.labels = {'post': {cname: sp.labels}}
+        p.expect_post = len(sp.labels)
+        proofs.append(p)
+
+    # ---------------------------------------------------------------- call sites: QXmppOutgoingClient::handleElement / handleStanza
+    # every received element reaches StreamAckManager::handleStanza first and exactly once; every stanza written here goes out
+    # through StreamAckManager::send.  Both enter the ack manager through the contracts enforced above.
+    sp_iq = b.spec('iq_isstanza.spec')
+    t_isst = b.lower(Target('src/base/QXmppIq.cpp', 'QXmppIq::isXmppStanza', 'isXmppStanza', 'QXmppIq_isXmppStanza', this='QXmppIq'), sp_iq)
+    t_isfeat = b.lower(Target('src/base/QXmppStreamFeatures.cpp', 'QXmppStreamFeatures::isStreamFeatures', 'isStreamFeatures', 'QXmppStreamFeatures_isStreamFeatures'))
+    b.functions[-1]['function'] = 'QXmppStreamFeatures::isStreamFeatures'
+    sp_hs = b.spec('oc_handlestanza.spec')
+    t_ochs = b.lower(Target(OC, 'QXmppOutgoingClient::handleStanza', 'handleStanza', 'OC_handleStanza', this='QXmppOutgoingClient', lowerer_cls=C09Lowerer), sp_hs)
+    sp_he = b.spec('oc_handleelement.spec')
+    t_oche = b.lower(Target(OC, 'QXmppOutgoingClient::handleElement', 'handleElement', 'OC_handleElement', this='QXmppOutgoingClient', lowerer_cls=C09Lowerer), sp_he)
+    cs_body = ('#define MGR self\n' + b.prototype(T[M + 'handleStanza']) + b.prototype(T[M + 'send']) + CLIENT_REC + t_isst + '\n' + t_isfeat + '\n'
+               + b.subst(rd('callsite_model.h')) + '#undef MGR\n#define MGR (&self->d->streamAckManager)\n'
+               + 'bool OC_handleStanza(QXmppOutgoingClient *self, qdom stanza);\n'
+               + 'static inline bool cs_fallback_handleStanza(QXmppOutgoingClient *c, qdom e) { cs_consumer(); return OC_handleStanza(c, e); }\n'
+               + t_ochs + '\n' + t_oche)
+    parsers = ['QXmppIq_parse', 'QXmppPresence_parse', 'QXmppMessage_parse']
+    for pid, cname, decls, args, sp, repl, note in (
+            ('QXmppIq_isXmppStanza', 'QXmppIq_isXmppStanza', 'QXmppIq *q;', 'q', sp_iq, [], ''),
+            ('OutgoingClient_handleStanza', 'OC_handleStanza', 'QXmppOutgoingClient *c; qdom e;', 'c, e', sp_hs, [M + 'send'] + parsers,
+             'StreamAckManager::send through its verified contract'),
+            ('OutgoingClient_handleElement', 'OC_handleElement', 'QXmppOutgoingClient *c; qdom e;', 'c, e', sp_he,
+             [M + 'handleStanza', M + 'send', 'OIM_handleStanza', 'QXmppStreamFeatures_parse', 'OC_handleStreamFeatures', 'OC_handleStreamError', 'StreamErrorElement_fromDom'] + parsers,
+             'StreamAckManager::handleStanza and ::send through their verified contracts; real body of the fallback handleStanza and of isStreamFeatures inlined')):
+        f = b.write(pid + '.c', assemble(cs_body, 'void h_%s(void) { %s %s(%s); }' % (pid, decls, cname, args)))
+        typecheck(f)
+        p = Proof(pid, f, 'h_' + pid, enforce=cname, include_dirs=[QT], kind='complete', loop_contracts=False, timeout=600, replace=repl, note=note)
         p.labels = {'post': {cname: sp.labels}}
         p.expect_post = len(sp.labels)
         proofs.append(p)
@@ -257,7 +294,8 @@ def build(work, tier):
             'XmppSocket::sendData(bytes) hands the bytes to the socket: appended to the wire log; the write may succeed or fail (nondeterministic result)',
             'serializeXml(SmAck{h}) is an <a h=h/>, serializeXml(SmRequest{}) an <r/>, serializeXml(SmResume{h, previd}) a <resume h previd/> (what the toXml members write is codec property C01)',
             'abstract DOM and opaque strings (qtmodel/opaque.h): tagName / namespaceURI / attribute are functions of the element; QString::toUInt is a function of the string',
-            'QXmppOutgoingClient::streamAckManager() / xmppSocket() are getters of the client\'s one StreamAckManager / socket; C2sStreamManager::setResumeAddress touches only the resume host and port (contract not verified here)',
+            'QXmppOutgoingClient::streamAckManager() / xmppSocket() / iqManager() are getters of the members d->streamAckManager / d->socket / d->iqManager; C2sStreamManager::setResumeAddress touches only the resume host and port (contract not verified here)',
+            'call sites (units/C09/callsite_model.h): OutgoingIqManager::handleStanza (C07), the elementReceived signal = QXmppClient extension chain (C08), QXmppStreamFeatures::parse, handleStreamFeatures, handleStreamError, StreamErrorElement::fromDom, QXmppIq/QXmppPresence/QXmppMessage::parse are unconstrained callees that do not touch the ack manager and write no stanza past it; socket()->isEncrypted() and configuration().streamSecurityMode() are pure getters; QXmppPacket(nonza, {}) carries serializeXml(nonza), nonza.isXmppStanza() (static class of a by-value object; QXmppIq::isXmppStanza is lowered and checked) and a NEW promise; serializeXml(<stanza object>) written to the socket directly is classified as a stanza past the ack manager by its C++ class (QXmppIq, QXmppMessage, QXmppPresence)',
             'stated preconditions: on send with stream management on, lastOutgoingSequenceNumber < 2^32-1 (QXmpp does not implement the XEP-0198 wrap-around of the outgoing counter); a packet object is handed to send() once (it is neither stored nor reported); fewer than 2^62 socket writes per history (ghost counter range)',
             'lemma harness: the __CPROVER_assume statements are the induction hypothesis (an arbitrary state satisfying the invariant) and the environment\'s choice of operation and argument',
         ],
@@ -265,11 +303,11 @@ def build(work, tier):
         'not_covered': [
             'wrap-around of the outgoing sequence counter at 2^32 (precondition above; the inbound counter wraps as XEP-0198 prescribes and is covered)',
             'C2sStreamManager::handleElement / onSasl2Success / onBind2Bound (the dispatch that decides WHEN onResumed / onEnabled run), requestEnable, onStreamFeatures, setResumeAddress; that C2sStreamManager::m_enabled and StreamAckManager::m_enabled stay equal',
-            'call-site inventory: that every outgoing stanza of QXmppOutgoingClient goes through StreamAckManager::send and every inbound element through handleStanza, and when resetCache / onSessionClosed are called on connection loss (C10)',
+            'other writers / consumers in QXmppOutgoingClient.cpp and QXmppClient.cpp that are NOT under contract here: handlePacketReceived (dispatch to the current listener: while a negotiation listener is installed received elements do not reach handleElement), sendIq (OutgoingIqManager, :1181) / PingManager (:1136) / QXmppClient::sendPacket, send, sendSensitive, reply (QXmppClient.cpp:504-576) which all call StreamAckManager::send or sendPacketCompat; direct socket writes of nonzas (StreamOpen :642, StarttlsRequest :892, SmResume :1416, SmEnable :1426, CSI :1553) and of pre-session IQ stanzas written directly BEFORE stream management can be enabled (BindManager::bindAddress :949, NonSaslAuthManager :1011/:1035); stanzas the extension chain sends from inside elementReceived; when resetCache / onSessionClosed are called on connection loss (C10)',
             'byte content of what is written: the wire log records WHICH packet\'s data() is handed to the socket and the h of <a/>/<resume/>; XML serialisation is C01, delivery of the report to the application\'s continuation is C13',
             'sendPacketCompat callers relying on its bool result; handlePacketSent (declared, never defined)',
         ],
-        'explanation': 'Every member of StreamAckManager, the four QXmppPacket members, SmAck::fromDom, SmRequest::fromDom and six members of C2sStreamManager are lowered from the working tree on every run. Loops (erase loop of setAcknowledgedSequenceNumber, both resend loops of enableStreamManagement, report loop of resetCache) are closed by loop contracts for maps of any size. The history part of the property follows from the inductive lemma over the contracts.',
+        'explanation': 'Call sites: QXmppOutgoingClient::handleElement and ::handleStanza are lowered and enter the ack manager through the verified contracts of StreamAckManager::handleStanza and ::send: every received element is handed to the ack manager exactly once and before anything else can consume it (so every message/presence/iq is counted), and the automatic error reply goes out through StreamAckManager::send, never through the socket directly. Every member of StreamAckManager, the four QXmppPacket members, SmAck::fromDom, SmRequest::fromDom and six members of C2sStreamManager are lowered from the working tree on every run. Loops (erase loop of setAcknowledgedSequenceNumber, both resend loops of enableStreamManagement, report loop of resetCache) are closed by loop contracts for maps of any size. The history part of the property follows from the inductive lemma over the contracts.',
     }
 
 
